@@ -180,5 +180,11 @@ theorem anc_par_of_ne (_T : TreeInv l) {a b : Nat} (h : Anc l a b) (hne : a ≠ 
   · exact absurd e hne
   · exact h
 
+theorem not_anc_of_lt' (T : TreeInv l) {a b : Nat} {ha hb : Hdr} (sa : lookup l.B a = some ha)
+    (sb : lookup l.B b = some hb) (hlt : hb.height < ha.height) : ¬ Anc l a b := by
+  intro h
+  have := T.anc_height_le h sa sb
+  omega
+
 end TreeInv
 end XV.Ledger
